@@ -10,7 +10,8 @@
 (* (je <= p) and whether one was in flight (jb < p < je), sets ackd / infl of    *)
 (* StoreCrash accordingly and accepts a "recovered" event only if the recovered  *)
 (* tables satisfy StoreCrash!RecoveredOK - the predicate CrashSafe demands of    *)
-(* every crash in the model - and every other query of the projection agrees.    *)
+(* every crash in the model - and every other query of the projection agrees;    *)
+(* a "recovered" event that fails is reported as <<"REJECTED", position>>.       *)
 (* The medium variables (file, cache, plan, txc, root) are not observable and    *)
 (* stay at their initial values.                                                 *)
 EXTENDS StoreCrash, Json, IOUtils
@@ -25,13 +26,18 @@ Ev == Rec[l]
 ToSetOf(s) == {s[i] : i \in DOMAIN s}
 
 (* ---- reading a projection ---- *)
-KnownIds(st) == /\ \A i \in DOMAIN st.byh : st.byh[i][2] \in DOMAIN D
-                /\ \A i \in DOMAIN st.byhash : st.byhash[i][2] \in DOMAIN D
+\* Long chains travel run-length encoded: st.byh is a sequence of <<first height, last height, id of
+\* the first header>> (ids ascend with the heights), st.byhash of <<first tag, last tag, id of the first
+\* header>>, st.hasat / st.has / st.metanone are range lists.
+RunIds(r)   == r[3]..(r[3] + (r[2] - r[1]))
+KnownIds(st) == /\ \A i \in DOMAIN st.byh : RunIds(st.byh[i]) \subseteq DOMAIN D
+                /\ \A i \in DOMAIN st.byhash : RunIds(st.byhash[i]) \subseteq DOMAIN D
+RunAt(rs, x) == rs[CHOOSE i \in DOMAIN rs : rs[i][1] <= x /\ x <= rs[i][2]]
+IdAt(rs, x)  == RunAt(rs, x)[3] + (x - RunAt(rs, x)[1])
 \* the four tables as the queries show them: H = get_by_height, X = get_by_hash, R = the range queries, M = metadata
 ImgOfProj(st) ==
-    [H |-> [h \in {st.byh[i][1] : i \in DOMAIN st.byh} |->
-               D[st.byh[CHOOSE i \in DOMAIN st.byh : st.byh[i][1] = h][2]]],
-     X |-> {<<st.byhash[i][1], D[st.byhash[i][2]].h>> : i \in DOMAIN st.byhash},
+    [H |-> [h \in SetOfRanges(st.byh) |-> D[IdAt(st.byh, h)]],
+     X |-> {<<t, D[IdAt(st.byhash, t)].h>> : t \in SetOfRanges(st.byhash)},
      R |-> [st |-> SetOfRanges(st.stored), sa |-> SetOfRanges(st.sampled), pr |-> SetOfRanges(st.pruned)],
      M |-> [h \in {st.meta[i][1] : i \in DOMAIN st.meta} |->
                ToSetOf(st.meta[CHOOSE i \in DOMAIN st.meta : st.meta[i][1] = h][2])]]
@@ -39,10 +45,10 @@ ImgOfProj(st) ==
 QueriesAgree(st) ==
     LET g == ImgOfProj(st) IN
     /\ CanonicalRanges(st.stored) /\ CanonicalRanges(st.sampled) /\ CanonicalRanges(st.pruned)
-    /\ \A i \in DOMAIN st.byh : st.byh[i][3] = st.byh[i][1]
-    /\ ToSetOf(st.hasat) = g.R.st
-    /\ ToSetOf(st.has) = {x[1] : x \in g.X}
-    /\ ToSetOf(st.metanone) = g.R.st \ DOMAIN g.M
+    /\ st.byh_bad = <<>>                              \* every header sits at its own height
+    /\ SetOfRanges(st.hasat) = g.R.st
+    /\ SetOfRanges(st.has) = {x[1] : x \in g.X}
+    /\ SetOfRanges(st.metanone) = g.R.st \ DOMAIN g.M
     /\ st.hh = HeadOpt(g.R.st)
     /\ st.head = (IF g.R.st = {} THEN <<>> ELSE <<g.H[MaxOf(g.R.st)].id>>)
     /\ st.ident = 1                                  \* the node identity persisted at first open
@@ -68,8 +74,8 @@ TCrash ==
        /\ infl' = IF InFlight(Ev.p) THEN <<StateOf(ImgOfProj(StAfter(a + 1)))>> ELSE <<>>
     /\ cp' = <<Ev>>
     /\ UNCHANGED <<vars, plan, file, cache, txc, root, D, hist>>
-TRecovered ==
-    /\ cp # <<>>
+\* the verdict on one crash image
+RecOK ==
     /\ Ev.ok = 1                                           \* reopening must succeed
     /\ KnownIds(Ev.st)
     /\ LET g == ImgOfProj(Ev.st)
@@ -77,7 +83,15 @@ TRecovered ==
        /\ RecoveredOK(g, ackd, infl)                       \* C22
        /\ QueriesAgree(Ev.st)
        /\ Ev.st = StAfter(a) \/ (infl # <<>> /\ Ev.st = StAfter(a + 1))
-       /\ hdr' = g.H /\ sampled' = g.R.sa /\ pruned' = g.R.pr /\ meta' = g.M /\ res' = ROk
+\* Crash images are independent of each other: a rejected one is reported (its position is printed,
+\* the driver reads the REJECTED lines) and validation goes on with the next, so that one finding
+\* cannot hide another in the same history.
+TRecovered ==
+    /\ cp # <<>>
+    /\ IF RecOK
+       THEN LET g == ImgOfProj(Ev.st) IN
+            hdr' = g.H /\ sampled' = g.R.sa /\ pruned' = g.R.pr /\ meta' = g.M /\ res' = ROk
+       ELSE PrintT(<<"REJECTED", l>>) /\ UNCHANGED vars
     /\ cp' = <<>>
     /\ UNCHANGED <<ackd, infl, plan, file, cache, txc, root, D, hist>>
 
